@@ -229,6 +229,13 @@ type World struct {
 	// OnCommitted is called after a block has been committed on both replicas
 	// and applied to the ledger.
 	OnCommitted func(b *types.Block)
+
+	// fastSync is the tape stream that decides, per commit on the node under
+	// test, whether the block arrives the way the block reactor delivers it
+	// (CommitBlock(..., fastsync=true): a node that is catching up while clients
+	// already talk to it) or from consensus (false). Seeded change C15-8: the
+	// mempool was no longer updated by fast-sync commits.
+	fastSync *kernel.Tape
 }
 
 func seededVal(i int) simnode.ValKey {
@@ -512,7 +519,16 @@ func copyDir(src, dst string) {
 }
 
 func (w *World) commitOn(ch *simnode.Chain, b *types.Block, parts *types.PartSet, seen *types.Commit) error {
-	vals, err := ch.App.CommitBlock(b, parts, seen, false)
+	fast := false
+	if ch == w.Chain {
+		if w.fastSync == nil {
+			w.fastSync = w.C.Tape.Fork("fastsync-commit")
+		}
+		if fast = w.fastSync.Bool(1, 4); fast {
+			w.C.Probe("commit-as-fast-sync")
+		}
+	}
+	vals, err := ch.App.CommitBlock(b, parts, seen, fast)
 	if err != nil {
 		return fmt.Errorf("CommitBlock: %v", err)
 	}
